@@ -146,7 +146,7 @@ where
         Err(RequestTokenError::ServerResponse(e)) => render_error(&e),
         Err(RequestTokenError::Parse(_, body)) => format!("parse {}", tok_bytes(&body)),
         Err(RequestTokenError::Other(_)) => "other".to_string(),
-        Err(RequestTokenError::Request(_)) => "request".to_string(),
+        Err(RequestTokenError::Request(e)) => format!("request {}", tok_bytes(e.0.as_bytes())),
     }
 }
 
@@ -231,7 +231,8 @@ pub fn run(ws: &[&str]) -> String {
     let reply = || -> Result<HttpResponse, FakeError> {
         calls.set(calls.get() + 1);
         if status == 0 {
-            return Err(FakeError("transport".into()));
+            // the caller's own error value: it must come back unchanged
+            return Err(FakeError(String::from_utf8_lossy(&body).to_string()));
         }
         let mut b = http::Response::builder().status(status);
         if let Some(ct) = &ct {
@@ -281,9 +282,17 @@ where
     V: Serialize + serde::de::DeserializeOwned,
     F: Fn(&V) -> String,
 {
+    // serialise, read back, serialise; and once more (a value may only go wrong the second time)
     let j = serde_json::to_string(v).unwrap();
     let rt = match serde_json::from_slice::<V>(j.as_bytes()) {
-        Ok(v2) => format!("{} {}", rend(&v2), tok_bytes(serde_json::to_string(&v2).unwrap().as_bytes())),
+        Ok(v2) => {
+            let j2 = serde_json::to_string(&v2).unwrap();
+            let rt2 = match serde_json::from_slice::<V>(j2.as_bytes()) {
+                Ok(v3) => format!("{} {}", rend(&v3), tok_bytes(serde_json::to_string(&v3).unwrap().as_bytes())),
+                Err(_) => "err".to_string(),
+            };
+            format!("{} {} rt {}", rend(&v2), tok_bytes(j2.as_bytes()), rt2)
+        }
         Err(_) => "err".to_string(),
     };
     format!("ok {} {} rt {}", rend(v), tok_bytes(j.as_bytes()), rt)
@@ -470,7 +479,7 @@ pub fn interleave(ws: &[&str]) -> String {
             Box::new(move |_r: HttpRequest| {
                 calls[i].set(calls[i].get() + 1);
                 let res = if s.status == 0 {
-                    Err(FakeError("transport".into()))
+                    Err(FakeError(String::from_utf8_lossy(&s.body).to_string()))
                 } else {
                     let mut b = http::Response::builder().status(s.status);
                     if let Some(ct) = &s.ct {
